@@ -68,6 +68,7 @@ def run(ctx, col, tier):
     from .c01 import r_capture
     from ..rules import smalllints2 as _s2
     _s2.run_pathio(ctx, col, ('swcgeom.core.swc_utils.io', 'swcgeom.core.tree', 'swcgeom.core.swc', 'swcgeom.core.population'))
+    _s2.run_clip(ctx, col, ('swcgeom.core.swc_utils.normalizer', 'swcgeom.core.swc_utils.io'))
     col.guard(r_capture, ctx, col, "R-CAPTURE")
     col.guard(r_rowlang, ctx, col)
     from .c05 import table_gather_keys
